@@ -196,7 +196,7 @@ func runHonest(t *rapid.T, c runCfg, extra func(w *chainsim.World, m *chainsim.M
 		return tipsSummary(w)
 	})
 	installPanicReporter(w, m)
-	chainsim.NewSyncMonitor(w, m.Report) // the sync oracles (C19) ride along in every run
+	w.SyncMon = chainsim.NewSyncMonitor(w, m.Report) // the sync oracles (C19) ride along in every run
 	if c.mutants {
 		chainsim.NewMutantInjector(w, m, m.Report)
 	}
